@@ -302,6 +302,25 @@ class Interp:
         env.vars[st.name] = IFunc(self, st, env, st.name)
 
     def s_If(self, st, env):
+        gm = getattr(ctx(), "guard_mode", None)
+        if gm is not None:
+            # guarded execution (body of a loop over ALL elements of a symbolic collection): no fork on the element's condition; both branches
+            # are executed with their stores guarded by the condition (model objects consult ctx().guard_mode); only assignments of pure
+            # expressions, calls on guard-aware model objects and nested ifs are allowed in such a body
+            c = self.ev(st.test, env)
+            if isinstance(c, (SB, SV)):
+                ct = sym.to_bool(c)
+                for blk, g in ((st.body, ct), (st.orelse, z3.Not(ct))):
+                    if blk:
+                        for s in blk:
+                            if not isinstance(s, (ast.Assign, ast.Expr, ast.If, ast.Pass)):
+                                raise Unsupported(f"statement {type(s).__name__} inside a guarded loop body")
+                        gm.append(g)
+                        try:
+                            self.block(blk, env)
+                        finally:
+                            gm.pop()
+                return
         if self.truth(self.ev(st.test, env)):
             self.block(st.body, env)
         else:
@@ -574,6 +593,11 @@ class Interp:
         return self.binop(n.op, self.ev(n.left, env), self.ev(n.right, env))
 
     def e_BoolOp(self, n, env):
+        if getattr(ctx(), "guard_mode", None) is not None:
+            vals = [self.ev(e, env) for e in n.values]  # guarded mode: operands must be side-effect free; no short-circuit fork
+            if any(isinstance(v, (SB, SV)) for v in vals):
+                ts = [sym.to_bool(v) if isinstance(v, (SB, SV)) else z3.BoolVal(bool(self.truth(v))) for v in vals]
+                return SB(z3.And(*ts) if isinstance(n.op, ast.And) else z3.Or(*ts))
         if isinstance(n.op, ast.And):
             v = True
             for e in n.values:
@@ -704,7 +728,20 @@ class Interp:
             if all(self.truth(self.ev(c, e2)) for c in g.ifs):
                 self._comp(gens[1:], e2, emit)
 
+    def _comp_hook(self, n, env, kind):
+        """a comprehension with a single, unconditional generator over a model object that knows how to represent the result symbolically"""
+        if len(n.generators) == 1 and not n.generators[0].ifs:
+            it = self.ev(n.generators[0].iter, env)
+            h = getattr(it, "__sym_comprehension__", None)
+            if h is not None:
+                parts = (ast.unparse(n.key), ast.unparse(n.value)) if kind == "dict" else (ast.unparse(n.elt),)
+                return h(kind, ast.unparse(n.generators[0].target), parts)
+        return None
+
     def e_ListComp(self, n, env):
+        r = self._comp_hook(n, env, "list") if isinstance(n, ast.ListComp) else None
+        if r is not None:
+            return r
         out = []
         self._comp(n.generators, env, lambda e: out.append(self.ev(n.elt, e)))
         return out
@@ -716,6 +753,9 @@ class Interp:
         return set(self.e_ListComp(n, env))
 
     def e_DictComp(self, n, env):
+        r = self._comp_hook(n, env, "dict")
+        if r is not None:
+            return r
         out = {}
 
         def emit(e):
